@@ -37,10 +37,10 @@ EXPLANATION = ('Snapshot equality as in C02 with the fields a version does not r
 REAL = ['glue.core.state savers and loaders of every registered version', 'GlueSerializer / GlueUnSerializer', 'real session files']
 STUB = ['version choice of the writing process (a GlueSerializer subclass overriding _dispatch for one type)']
 ASSUMPTIONS = ['only one type is skewed at a time; historical cross-type combinations are not reconstructed',
-               'the rename-table clauses (termination, importability, no capture of live class names) are static and not decided here',
+               'of the rename-table clauses only "chains end" and "the loader resolves an old name to what the end of its chain names" are checked (once per interpreter); importability of targets in other packages and "no capture of live class names" are static and not decided here',
                'sampling, not proof']
 PROBES = ['data_v1', 'data_v2', 'data_v3', 'data_v4', 'dc_v1', 'dc_v2', 'dc_v3', 'skew_with_groups', 'skew_with_links', 'skew_with_joins',
-          'registry_shape_checked']
+          'registry_shape_checked', 'rename_table_checked']
 
 WEIGHTS = dict(c02.WEIGHTS)
 WEIGHTS.pop('new_file', None)
@@ -123,6 +123,38 @@ def check_registry(res):
             if v not in loaders:
                 raise Violation('C12/saved-version-without-loader', '%s version %d' % (typ, v))
     res.probe('registry_shape_checked')
+    check_rename_table(res)
+
+
+_TABLE_OK = []
+
+
+def check_rename_table(res):
+    """Every old name of the rename table must resolve, through the function the loader uses, to what the end of its chain of
+    redirections names (same object, or the same failure to import), and chains must end.  Checked once per interpreter: the
+    table is read at import time."""
+    if _TABLE_OK:
+        return
+    from glue.core import state as ST
+
+    def outcome(f, name):
+        try:
+            return ('ok', f(name))
+        except Exception as e:
+            return ('error', type(e).__name__)
+    for old in sorted(ST.PATH_PATCHES):
+        name, steps = old, 0
+        while name in ST.PATH_PATCHES:
+            name = ST.PATH_PATCHES[name]
+            steps += 1
+            if steps > len(ST.PATH_PATCHES):
+                raise Violation('C12/rename-chain-does-not-terminate', old)
+        want = outcome(ST.lookup_class, name)
+        got = outcome(ST.lookup_class_with_patches, old)
+        if want[0] != got[0] or (want[0] == 'ok' and want[1] is not got[1]):
+            raise Violation('C12/renamed-class-resolves-elsewhere', '%s should resolve to %s (%s), the loader gets %s' % (old, name, want, got))
+    _TABLE_OK.append(True)
+    res.probe('rename_table_checked')
 
 
 def skewed_serializer(typ, ver):
